@@ -54,6 +54,13 @@ def run_session(task):
                                          key_table=key_table)
             out["histories"] += 1
             kinds = collections.Counter(op["op"] for op in hist["ops"])
+            nbulk = sum(1 for r in hist["recipes"] for st in r["steps"]
+                        if st["op"] == "dwgen")
+            if nbulk:
+                stats["histories_with_bulk_data"] = \
+                    stats.get("histories_with_bulk_data", 0) + 1
+                stats["bulk_data_leaves"] = \
+                    stats.get("bulk_data_leaves", 0) + nbulk
             if kinds["pickle"] or kinds["mutate"] or kinds["unpickle"]:
                 out["nontrivial"].add(driver.sha(json.dumps(hist, sort_keys=True)))
             if len(out["samples"]) < 1:
@@ -243,6 +250,19 @@ def run_check(prop, tiers, assumptions, tier, budget_s=None):
             "pickles": int(stats["pickles"]),
             "hash_forced_before_other_ops": int(stats["hash_forced"]),
             "junk_allocation_ops": int(stats["junk_ops"]),
+            "address_reuse_churn_rounds": int(stats["churn_rounds"]),
+        },
+        "address_reuse_churn": {
+            "rounds_of_build_compare_key_discard": int(stats["churn_rounds"]),
+            "comparisons_of_transient_graphs": int(stats["churn_comparisons"]),
+            "keys_of_transient_graphs_in_content_bijection":
+                int(stats["churn_keys"]),
+            "transient_keys_compared_with_a_peer_building_from_scratch":
+                int(stats["churn_keys_compared_with_peer"]),
+        },
+        "size_knobs": {
+            "histories_with_bulk_data": int(stats["histories_with_bulk_data"]),
+            "bulk_data_leaves_0.5KiB_to_1MiB": int(stats["bulk_data_leaves"]),
         },
         "history_driven_checks": {
             "pairs_compared": int(stats["check_pairs"]),
